@@ -20,7 +20,7 @@ RULE = (
     "on which the function fails and the exception it raises there "
     "(FlakyError / StopIteration / KeyError / ValueError / EOFError; side "
     "file read by the function), delete "
-    "result i, corrupt result i (empty / half / garbage / wrong length) + "
+    "result i, delete result i AND grow batch j before the next look, corrupt result i (empty / half / garbage / wrong length) + "
     "check_bad, check_bad alone, reload the Crop, query}.  Model = (B, set of "
     "finished ids).  After EVERY op: num_sown_batches == B, num_results == "
     "|finished|, missing_results() == sorted(all - finished), "
@@ -199,6 +199,24 @@ def run_case(case):
                 os.remove(crops.result_path(root, name, i))
                 finished.discard(i)
                 interesting, checked_after_interesting = True, False
+            elif o == "swap":
+                # two changes with no look at the progress in between: one
+                # result goes away, another batch is grown (same COUNT of
+                # results before and after)
+                missing_now = sorted(set(range(1, B + 1)) - finished)
+                cand = [j for j in missing_now
+                        if not (failing & set(batch_vals[j]))]
+                if not finished or not cand:
+                    continue
+                i = sorted(finished)[op["i"] % len(finished)]
+                j = cand[op["j"] % len(cand)]
+                os.remove(crops.result_path(root, name, i))
+                with under_test(tag):
+                    crop.grow(j)
+                finished.discard(i)
+                finished.add(j)
+                kind_of[j] = cur_kind[0]
+                interesting, checked_after_interesting = True, False
             elif o == "corrupt":
                 if not finished:
                     continue
@@ -290,6 +308,7 @@ def strategy(draw):
                                    ["flaky", "flaky", "stop", "key", "value",
                                     "eof"])}),
         st.fixed_dictionaries({"op": st.just("delete"), "i": ids}),
+        st.fixed_dictionaries({"op": st.just("swap"), "i": ids, "j": ids}),
         st.fixed_dictionaries({"op": st.just("corrupt"), "i": ids,
                                "how": st.sampled_from(
                                    ["empty", "half", "garbage", "short"])}),
